@@ -107,7 +107,10 @@ def run_impl(op, ta, a, tb, b):
     from pytezos.michelson.instructions.base import MichelsonInstruction
     from pytezos.michelson.micheline import MichelsonRuntimeError
     from pytezos.michelson.stack import MichelsonStack
-    items = [item(ta, a)] + ([item(tb, b)] if tb != '-' else [])
+    try:
+        items = [item(ta, a)] + ([item(tb, b)] if tb != '-' else [])
+    except Exception as e:   # noqa: every operand of the pools is a legal value of its type
+        return ('operand-rejected', '%s: %s' % (type(e).__name__, ' / '.join(str(x) for x in e.args)[:200]))
     st = MichelsonStack(items)
     try:
         MichelsonInstruction.match({'prim': op}).execute(st, [], ExecutionContext())
@@ -131,6 +134,10 @@ def compare(ctx, case, a, b, res):
     ok = (got[0] == 'err') if want[0] == 'err' else (got == want)
     if ok:
         return True
+    if got[0] == 'operand-rejected':
+        ctx.mismatch('C16:operand-rejected:%s' % (ta if tb == '-' else ta + '-' + tb), '%s %s %r %s %r: a legal operand cannot be built: %s' % (op, ta, to_py(a), tb, to_py(b) if tb != '-' else None, got[1]),
+                     {'case': list(case), 'a': to_json(a), 'b': to_json(b), 'res': to_json(res)})
+        return False
     bytes_bitwise = ta == 'bytes' and op in ('AND', 'OR', 'XOR', 'NOT', 'LSL', 'LSR')
     if bytes_bitwise and got[0] == 'err':
         sig = 'C16:bytes-bitwise-unimplemented:%s' % op
